@@ -14,6 +14,7 @@ mod panics;
 mod pipeline;
 mod props;
 mod rng;
+mod structural;
 mod tirgen;
 
 use framework::{Env, Tier};
